@@ -79,6 +79,18 @@ def subst(t, f):
 
 # ---- simplifier ------------------------------------------------------------------
 
+def _membership_base(b):
+    """`x in set(L)`, `x in frozenset(L)`, `x in list(L)`, `x in sorted(L)` ask the same question as `x in L` (for hashable x -
+    an unhashable x cannot be an element of a list of state numbers either); likewise a conditional between L and a set of L."""
+    while b[0] == "call" and b[1] in ("set", "frozenset", "list", "tuple", "sorted") and len(b[2]) == 1 and not b[3]:
+        b = b[2][0]
+    if b[0] == "ite":
+        x, y = _membership_base(b[2]), _membership_base(b[3])
+        if x == y:
+            return x
+    return b
+
+
 def simp(t):
     if not isinstance(t, tuple) or not t:
         return t
@@ -188,6 +200,10 @@ def simp(t):
         return (h, tuple(out))
     if h == "cmp":
         op, a, b = t[1], t[2], t[3]
+        if op in ("in", "notin"):
+            b2 = _membership_base(b)
+            if b2 != b:
+                return simp(("cmp", op, a, b2))
         if op == ">":
             return simp(("cmp", "<", b, a))
         if op == ">=":
@@ -1274,6 +1290,9 @@ class SymX:
                 m = self.prog.resolve_method(self.cls_name, fv[2])     # a bound method passed around as a value
                 if m is not None and not any(isinstance(d, ast.Name) and d.id == "staticmethod" for d in m.node.decorator_list):
                     return self.inline(m, (("v", "self"),) + args, kws, st, depth)
+            if fv[0] == "v" and fv[1] != c.func.id and fv[1] in ("max", "min", "sum", "len", "sorted", "abs", "round", "any", "all", "list", "tuple", "set", "frozenset") \
+                    and fv[1] not in f.mod.funcs and fv[1] not in f.mod.consts:
+                return simp(("call", fv[1], args, kws))           # a builtin handed over as a value (`pick=max`) and called
             if fv[0] != "v" or fv[1] != c.func.id:
                 return ("apply", fv, args, kws)
         if isinstance(c.func, ast.Attribute) and isinstance(c.func.value, ast.Call) and isinstance(c.func.value.func, ast.Name) \
